@@ -330,12 +330,240 @@ fn wgen(args: &[String]) -> anyhow::Result<()> {
     Ok(())
 }
 
+
+/// `builder --out f --nw --nr --nc --runs --len`: drive the public CircuitBuilder API with random calls and
+/// record what each call returned (for spec/BuilderTrace.tla).
+fn builder_trace(args: &[String]) -> anyhow::Result<()> {
+    use plonky2::field::types::Field;
+    use plonky2::gates::constant::ConstantGate;
+    use plonky2::gates::noop::NoopGate;
+    use plonky2::iop::target::Target;
+    use plonky2::plonk::circuit_data::CircuitConfig;
+    type C = PoseidonGoldilocksConfig;
+    type F = <C as GenericConfig<D>>::F;
+    let out = opt(args, "--out").ok_or_else(|| anyhow::anyhow!("--out"))?;
+    let nw = opt_usize(args, "--nw", 135);
+    let nr = opt_usize(args, "--nr", 80);
+    let nc = opt_usize(args, "--nc", 2);
+    let runs = opt_usize(args, "--runs", 20);
+    let len = opt_usize(args, "--len", 60);
+    let mut r = rng(0xB11D + (nw * 1000 + nr) as u64);
+    let mut w = NdJson::create(out)?;
+    w.put(&json!({"ev": "config", "nw": nw, "nr": nr, "nc": nc}));
+    let tj = |t: Target| match t {
+        Target::VirtualTarget { index } => json!(["v", index]),
+        Target::Wire(wr) => json!(["w", wr.row, wr.column]),
+    };
+    let two = F::from_canonical_u64(2);
+    let three = F::from_canonical_u64(3);
+    let pool: Vec<F> = vec![
+        F::ZERO, F::ONE, F::NEG_ONE, two, three, two.inverse(), three.inverse(), F::from_canonical_u64(1 << 32),
+        F::from_canonical_u64(0xFFFF_FFFF_0000_0000), F::from_canonical_u64(0x1234_5678_9ABC_DEF1),
+    ];
+    let mut built = 0usize;
+    let mut calls = 0usize;
+    let mut sem_bad: Vec<Value> = vec![];
+    let mut sem_checked = 0usize;
+    for run in 0..runs {
+        w.put(&json!({"ev": "reset", "run": run}));
+        let mut config = CircuitConfig::standard_recursion_config();
+        config.num_wires = nw;
+        config.num_routed_wires = nr;
+        config.num_constants = nc;
+        let mut b = CircuitBuilder::<F, D>::new(config.clone());
+        let mut tg: Vec<Target> = vec![];
+        let mut ops: Vec<(F, F, Target, Target, Target)> = vec![];
+        let mut arith_res: Vec<Target> = vec![];
+        let mut ras: Vec<(Target, usize)> = vec![];
+        let mut ra_res: Vec<Target> = vec![];
+        let mut virts: Vec<Target> = vec![];
+        // RandomAccessGate of `bits` exists under this row shape iff it has at least one copy
+        let ra_bits: Vec<usize> = (1..=4usize)
+            .filter(|&bits| (nr / (2 + (1 << bits))).min(nw / (2 + (1 << bits) + bits)) >= 1)
+            .collect();
+        let n = r.gen_range(1..=len);
+        // a small per-run constant set makes slots with equal parameters, cache hits and folds frequent
+        let k = r.gen_range(2..=5usize);
+        let mut cs: Vec<F> = (0..k).map(|_| pool[r.gen_range(0..pool.len())]).collect();
+        // zero and one drive the shortcuts of `arithmetic` (absorbing zero, identity, folding)
+        if run % 4 != 3 {
+            cs.push(F::ZERO);
+            cs.push(F::ONE);
+        }
+        for _ in 0..n {
+            let choice = r.gen_range(0..100);
+            calls += 1;
+            if tg.len() < 2 || choice < 10 {
+                let t = b.add_virtual_target();
+                virts.push(t);
+                tg.push(t);
+                w.put(&json!({"ev": "virt", "res": tj(t), "ng": b.num_gates()}));
+            } else if choice < 25 {
+                let c = cs[r.gen_range(0..cs.len())];
+                let t = b.constant(c);
+                tg.push(t);
+                w.put(&json!({"ev": "const", "c": limbs(c.to_canonical_u64()), "res": tj(t), "ng": b.num_gates()}));
+            } else if choice < 80 {
+                let c0 = cs[r.gen_range(0..cs.len())];
+                let c1 = cs[r.gen_range(0..cs.len())];
+                // favour recent targets and repeats
+                let pick = |r: &mut rand_chacha::ChaCha8Rng, tg: &Vec<Target>| {
+                    let m = tg.len();
+                    if r.gen_bool(0.5) { tg[m - 1 - r.gen_range(0..m.min(4))] } else { tg[r.gen_range(0..m)] }
+                };
+                let (mut c0, mut c1) = (c0, c1);
+                let (mut x, mut y, mut z) = (pick(&mut r, &tg), pick(&mut r, &tg), pick(&mut r, &tg));
+                let shape = r.gen_range(0..100);
+                if shape < 12 && !ops.is_empty() {
+                    // an operation already performed (result cache)
+                    let o: (F, F, Target, Target, Target) = ops[r.gen_range(0..ops.len())];
+                    (c0, c1, x, y, z) = o;
+                } else if shape < 24 && c0 != F::ZERO {
+                    // one multiplicand is the constant 1/c0 and the second term vanishes (identity shortcut)
+                    let inv = c0.inverse();
+                    let t = b.constant(inv);
+                    w.put(&json!({"ev": "const", "c": limbs(inv.to_canonical_u64()), "res": tj(t), "ng": b.num_gates()}));
+                    if shape % 2 == 0 { x = t } else { y = t }
+                    if shape % 3 == 0 {
+                        c1 = F::ZERO
+                    } else {
+                        z = b.zero();
+                        w.put(&json!({"ev": "const", "c": limbs(0), "res": tj(z), "ng": b.num_gates()}));
+                    }
+                }
+                ops.push((c0, c1, x, y, z));
+                let t = b.arithmetic(c0, c1, x, y, z);
+                arith_res.push(t);
+                tg.push(t);
+                w.put(&json!({"ev": "arith", "c0": limbs(c0.to_canonical_u64()), "c1": limbs(c1.to_canonical_u64()),
+                    "x": tj(x), "y": tj(y), "z": tj(z), "res": tj(t), "ng": b.num_gates()}));
+            } else if choice < 92 && !ra_bits.is_empty() {
+                let bits = ra_bits[r.gen_range(0..ra_bits.len())];
+                // a constant index inside the list keeps the circuit satisfiable
+                let j = r.gen_range(0..1usize << bits);
+                let cj = F::from_canonical_usize(j);
+                let idx = b.constant(cj);
+                w.put(&json!({"ev": "const", "c": limbs(cj.to_canonical_u64()), "res": tj(idx), "ng": b.num_gates()}));
+                let v: Vec<Target> = (0..1usize << bits).map(|_| tg[r.gen_range(0..tg.len())]).collect();
+                ras.push((v[j], 0));
+                let t = b.random_access(idx, v);
+                ra_res.push(t);
+                tg.push(t);
+                w.put(&json!({"ev": "ra", "bits": bits, "res": tj(t), "ng": b.num_gates()}));
+            } else if choice < 96 {
+                b.add_gate(NoopGate, vec![]);
+                w.put(&json!({"ev": "row", "kind": "noop", "ng": b.num_gates()}));
+            } else {
+                b.add_gate(ConstantGate::new(nc), vec![]);
+                w.put(&json!({"ev": "row", "kind": "const", "ng": b.num_gates()}));
+            }
+        }
+        // build (public inputs need the Poseidon gate: only under rows wide enough for it)
+        let npi = if nw >= 135 && nr >= 8 + 0 { [0usize, 1, 8, 9][r.gen_range(0..4)] } else { 0 };
+        for i in 0..npi {
+            b.register_public_input(tg[i % tg.len()]);
+        }
+        let res = guarded(move || b.build::<C>());
+        let data = match res {
+            Ok(d) => d,
+            Err(e) => {
+                // the rest of this run cannot be observed; the trace spec resynchronises at the next reset
+                emit(&json!({"builder_build_panic": e, "run": run}));
+                continue;
+            }
+        };
+        built += 1;
+        let common = &data.common;
+        let consts = vh::oracle::constants_by_row(&data.prover_only, common);
+        let sel = plonky2::verif_exports::selector_indices(&common.selectors_info);
+        let nsel = plonky2::verif_exports::selector_groups(&common.selectors_info).len() + common.num_lookup_selectors;
+        let mut rows = vec![];
+        for row in 0..common.degree() {
+            let mut found = None;
+            for (g, gate) in common.gates.iter().enumerate() {
+                if consts[row][sel[g]] == F::from_canonical_usize(g) {
+                    found = Some(gate);
+                    break;
+                }
+            }
+            let gate = found.ok_or_else(|| anyhow::anyhow!("row {row}: no selector names a gate"))?;
+            let id = gate.0.id();
+            let kind = if id.starts_with("ArithmeticGate") {
+                "arith".to_string()
+            } else if id.starts_with("ConstantGate") {
+                "const".to_string()
+            } else if id.starts_with("NoopGate") {
+                "noop".to_string()
+            } else if id.starts_with("PublicInputGate") {
+                "pi".to_string()
+            } else if id.starts_with("PoseidonGate") {
+                "poseidon".to_string()
+            } else if id.starts_with("RandomAccessGate") {
+                let i = id.find("bits: ").ok_or_else(|| anyhow::anyhow!("gate id {id}"))? + 6;
+                let digits: String = id[i..].chars().take_while(|c| c.is_ascii_digit()).collect();
+                format!("ra{digits}")
+            } else {
+                id.clone()
+            };
+            let gc: Vec<Value> = (0..gate.0.num_constants()).map(|j| limbs(consts[row][nsel + j].to_canonical_u64())).collect();
+            rows.push(json!({"kind": kind, "consts": gc}));
+        }
+        w.put(&json!({"ev": "build", "npi": npi, "degree": common.degree(), "rows": rows}));
+        // meaning: under the library's own witness generation every call's result has the value the call
+        // denotes, and the assignment satisfies every gate and copy constraint (so the value is forced)
+        let mut pw = plonky2::iop::witness::PartialWitness::<F>::new();
+        for t in &virts {
+            use plonky2::iop::witness::WitnessWrite;
+            let v = if r.gen_bool(0.2) { pool[r.gen_range(0..pool.len())] } else { F::from_canonical_u64(r.gen::<u64>() % vh::util::P) };
+            pw.set_target(*t, v)?;
+        }
+        let wit = guarded(|| plonky2::iop::generator::generate_partial_witness(pw, &data.prover_only, common));
+        let wit = match wit {
+            Ok(Ok(x)) => x,
+            Ok(Err(e)) => {
+                sem_bad.push(json!({"run": run, "witness_error": e.to_string()}));
+                continue;
+            }
+            Err(e) => {
+                sem_bad.push(json!({"run": run, "witness_panic": e}));
+                continue;
+            }
+        };
+        let a = vh::oracle::Assignment::from_partition(&wit);
+        let verdict = vh::oracle::check(&a, &data.prover_only, common, &consts);
+        if !verdict.satisfied() {
+            sem_bad.push(json!({"run": run, "unsatisfied": format!("{:?}", verdict)}));
+        }
+        for (k, (c0, c1, x, y, z)) in ops.iter().enumerate() {
+            let e = *c0 * a.get(*x) * a.get(*y) + *c1 * a.get(*z);
+            sem_checked += 1;
+            if a.get(arith_res[k]) != e {
+                sem_bad.push(json!({"run": run, "arith": k, "c0": c0.to_canonical_u64(), "c1": c1.to_canonical_u64(),
+                    "x": tj(*x), "y": tj(*y), "z": tj(*z), "res": tj(arith_res[k]),
+                    "value": a.get(arith_res[k]).to_canonical_u64(), "expected": e.to_canonical_u64()}));
+            }
+        }
+        for (k, (item, _)) in ras.iter().enumerate() {
+            sem_checked += 1;
+            if a.get(ra_res[k]) != a.get(*item) {
+                sem_bad.push(json!({"run": run, "ra": k, "res": tj(ra_res[k]), "value": a.get(ra_res[k]).to_canonical_u64(),
+                    "expected": a.get(*item).to_canonical_u64()}));
+            }
+        }
+    }
+    let n = w.finish();
+    emit(&json!({"builder_trace": out, "events": n, "runs": runs, "built": built, "calls": calls,
+        "sem_checked": sem_checked, "sem_bad": sem_bad}));
+    Ok(())
+}
+
 fn main() -> std::process::ExitCode {
     run_main(|cmd, rest| match cmd {
         "interp17" => interp17(rest),
         "run" => run(rest),
         "friadm" => friadm(rest),
         "wgen" => wgen(rest),
+        "builder" => builder_trace(rest),
         other => Err(anyhow::anyhow!("unknown command {other}")),
     })
 }
